@@ -4,13 +4,18 @@
             counters after every Add, the output of ARecord/AAAARecord at the end
      KE2E   one DNS response of a real FBDNSDB (cdb / rocksdb v1 / v2) for an
             A, AAAA, ANY, MX or NS query with a max-answer setting
+     KConc  many goroutines on the REAL shared locked generator (draws are not
+            scripted): every distinct outcome of an address selection (direct
+            Wrs.Add/ARecord, or a query through FBDNSDB) with its candidates,
+            the number of recovered panics, and the number of repeated values
+            among the 63-bit draws taken concurrently from the locked source
      KChi   counts of served addresses over many draws (support only; decides
             only when grossly off)
    Imports nothing that needs real numbers. *)
 From DnsV Require Import Base.Bytes Model.Wrs.
 Open Scope N_scope.
 
-Inductive kind := KUnit | KE2E | KChi.
+Inductive kind := KUnit | KE2E | KChi | KConc.
 
 (* a candidate of a unit case: record type, scripted draw, weight, rank of its
    float64 key among all keys of the case (0 <-> the key is 0.0), key == 0.0 *)
@@ -38,7 +43,9 @@ Record case := mk {
   ctargets : list (N * list (N * N * N));  (* NS/MX targets in processing order, visible records *)
   cextra : list (N * N * N);        (* additional section: (owner id, type, record id) *)
   cmsgids : list N;                 (* every record of the message, equal records -> equal number *)
-  cchi_w : list N; cchi_obs : list N
+  cchi_w : list N; cchi_obs : list N;
+  cpanics : N;                      (* KConc: selections / draws that panicked *)
+  cdups : N                         (* KConc: repeated values among the concurrent 63-bit draws *)
 }.
 
 (* ---- helpers ---- *)
@@ -222,12 +229,36 @@ Definition chi_ok (ws obs : list N) : bool :=
       (zsum (map (fun p => let d := (snd p * S - n * fst p)%Z in d * d * (P / fst p))%Z pos)
        <=? chi_threshold (length pos - 1) * S * n * P)%Z).
 
+(* ---- KConc: concurrent use of the shared generator ----
+   The draws are whatever the real generator returns, so only draw-independent
+   facts are checked.  They are exactly what C11_bounded_sound proves for EVERY
+   key assignment (the theorem quantifies over all keys, i.e. over everything a
+   generator can return): each outcome is a duplicate-free set of declared
+   positive-weight records of size min(max, positives).  What the class adds is
+   that concurrency does not take the code outside the sequential model: no
+   panic (a panic inside Wrs.Add is recovered by the drivers' ForEach and would
+   truncate the sample), and the locked source hands no 63-bit value out twice
+   (more than 2 repeats among <= 3.2e6 draws has probability < 1e-20 for a
+   sound generator; a natural single repeat has probability about 5e-7).
+   cgroups holds one group per DISTINCT outcome observed (g_got4/g_got6). *)
+Definition conc_spec_ok (c : case) : bool :=
+  forallb group_spec_ok (cgroups c) && (cpanics c =? 0) && (cdups c <=? 2).
+
+(* the model on a hypothetical key assignment gives an answer of the same size
+   as every observed outcome, and the model never panics *)
+Definition conc_model_ok (c : case) : bool :=
+  (cpanics c =? 0) &&
+  forallb (fun g =>
+    let r := find_answer rk_lt rk_pos (cqtype c) (g_max g) [hyp_rows g] in
+    Nat.eqb (length (fst (fst r))) (length (g_got4 g) + length (g_got6 g))) (cgroups c).
+
 (* ---- dispatch ---- *)
 Definition model_ok (c : case) : bool :=
   match ckind c with
   | KUnit => unit_model_ok c
   | KE2E => e2e_model_ok c
   | KChi => true
+  | KConc => conc_model_ok c
   end.
 
 Definition spec_ok (c : case) : bool :=
@@ -235,6 +266,7 @@ Definition spec_ok (c : case) : bool :=
   | KUnit => unit_spec_ok c
   | KE2E => e2e_spec_ok c
   | KChi => chi_ok (cchi_w c) (cchi_obs c)
+  | KConc => conc_spec_ok c
   end.
 
 (* what the model computes for a case (replay files) *)
